@@ -65,6 +65,22 @@ def cases(rng, tier):
             init = [rng.randint(0, 9) for _ in keys]
         batches = [_batch(rng, keys, absent) for _ in range(rng.randint(1, 5))]
         out.append({"keys": keys, "kdtype": dt, "mod": mod, "init": init, "batches": batches, "pseed": rng.randint(0, 999)})
+    # small moduli with a PRESCRIBED pattern of bucket sizes (1..3 keys per bucket, some buckets empty) and short batches that walk
+    # through the buckets in every order: the (sample, offset-in-bucket) bookkeeping sees rows of unequal lengths
+    for _ in range(200 if tier == "quick" else 3000):
+        m = rng.randint(2, 6)
+        sizes = [rng.choice([0, 1, 1, 2, 2, 3]) for _ in range(m)]
+        if sum(sizes) == 0:
+            sizes[0] = 2
+        keys = [b + m * j for b, sz in enumerate(sizes) for j in range(sz)]
+        rng.shuffle(keys)
+        absent = [b + m * (3 + rng.randint(0, 2)) for b in range(m)]
+        batches = []
+        for _ in range(rng.randint(1, 4)):
+            b = [rng.choice(keys) for _ in range(rng.randint(3, 7))] + ([rng.choice(absent)] if rng.random() < 0.4 else [])
+            rng.shuffle(b)
+            batches.append(b)
+        out.append({"keys": keys, "kdtype": rng.choice(["int64", "int32", "uint8"]), "mod": m, "init": rng.choice(["default", 0, 3]), "batches": batches, "pseed": rng.randint(0, 999)})
     # NARROW key dtypes with MANY buckets (hashes close to the dtype's maximum: arithmetic on them in the key dtype wraps)
     for _ in range(150 if tier == "quick" else 2000):
         dt = rng.choice(["int8", "uint8", "int16", "uint16"])
